@@ -62,6 +62,11 @@ type c14Case struct {
 	Conc  bool     `json:"conc,omitempty"`
 	Ops   []raceOp `json:"ops,omitempty"`
 	Shape string   `json:"shape,omitempty"`
+	// decrace / forceddec: wide type families, wire data from the single-goroutine process
+	Families []int      `json:"families,omitempty"`
+	Datas    [][]string `json:"datas,omitempty"` // per family: [hex of WT value, hex of WO value, hex of []WT value]
+	DelaysUs []int      `json:"delays_us,omitempty"`
+	BDest    string     `json:"bdest,omitempty"` // PT | O | S
 }
 
 type sessObs struct {
@@ -75,19 +80,20 @@ type sessObs struct {
 }
 
 type c14Obs struct {
-	ID       int       `json:"id"`
-	Kind     string    `json:"kind"`
-	Sessions []sessObs `json:"sessions,omitempty"`
-	Before   string    `json:"before,omitempty"`
-	After    string    `json:"after,omitempty"`
-	ErrB     string    `json:"err_before,omitempty"`
-	ErrA     string    `json:"err_after,omitempty"`
-	Outs     []string  `json:"outs,omitempty"`
-	Errs     []string  `json:"errs,omitempty"`
-	Hook     bool      `json:"hook"`
-	Note     string    `json:"note,omitempty"`
-	Blocked  bool      `json:"blocked,omitempty"`
-	Panic    string    `json:"panic,omitempty"`
+	ID       int        `json:"id"`
+	Kind     string     `json:"kind"`
+	Sessions []sessObs  `json:"sessions,omitempty"`
+	Before   string     `json:"before,omitempty"`
+	After    string     `json:"after,omitempty"`
+	ErrB     string     `json:"err_before,omitempty"`
+	ErrA     string     `json:"err_after,omitempty"`
+	Outs     []string   `json:"outs,omitempty"`
+	Rounds   [][]string `json:"rounds,omitempty"`
+	Errs     []string   `json:"errs,omitempty"`
+	Hook     bool       `json:"hook"`
+	Note     string     `json:"note,omitempty"`
+	Blocked  bool       `json:"blocked,omitempty"`
+	Panic    string     `json:"panic,omitempty"`
 }
 
 // ---------------------------------------------------------------------------------- values
@@ -933,8 +939,129 @@ func runRace(c *c14Case, obs *c14Obs) {
 	done.Wait()
 }
 
+// ---------------------------------------------------------------------------------- decoder-side first use
+// values of the wide families, built by reflection (does not touch hprose)
+func fillWide(p interface{}, seed int) {
+	v := reflect.ValueOf(p).Elem()
+	fillWideValue(v, seed)
+}
+
+func fillWideValue(v reflect.Value, seed int) {
+	for i := 0; i < v.NumField(); i++ {
+		f := v.Field(i)
+		switch f.Kind() {
+		case reflect.Int:
+			f.SetInt(int64(seed + i))
+		case reflect.String:
+			f.SetString(fmt.Sprintf("s%d", seed))
+		case reflect.Struct:
+			fillWideValue(f, seed+1000)
+		case reflect.Ptr:
+			n := reflect.New(f.Type().Elem())
+			fillWideValue(n.Elem(), seed+2000)
+			f.Set(n)
+		}
+	}
+}
+
+func decodeInto(simple bool, data []byte, dest interface{}) (out string, errs string) {
+	defer func() {
+		if e := recover(); e != nil {
+			out, errs = "", "PANIC:"+fmt.Sprint(e)
+		}
+	}()
+	err := io.Formatter{Simple: simple}.Unmarshal(data, dest)
+	return jsonRender(dest), errText(err)
+}
+
+// solo (conc=false): per family [hex WT, hex WO, hex []WT, decoded WT, decoded *WT, decoded WO, decoded []WT],
+// all in one goroutine.
+// conc: per family one round: goroutine A decodes into WT (its first use in this process) while the
+// goroutines B_k, released at the same instant and each spinning DelaysUs[k] first, decode into *WT,
+// WO{In WT; P *WT} or []WT (k mod 3); outputs "T:..", "PT:..", "O:..", "S:.." (A first).
+// (the first struct of a stream is preceded by its class definition and is re-dispatched through
+// getValueDecoder; the SECOND one goes straight through the handler captured when the coder was built)
+func runDecRace(c *c14Case, obs *c14Obs) {
+	for idx, j := range c.Families {
+		fam := wideFamilies[j]
+		if !c.Conc {
+			vt, vo := fam.newT(), fam.newO()
+			fillWide(vt, c.Seed)
+			fillWide(vo, c.Seed+7)
+			bt, e1 := io.Formatter{Simple: c.Simple}.Marshal(reflect.ValueOf(vt).Elem().Interface())
+			bo, e2 := io.Formatter{Simple: c.Simple}.Marshal(reflect.ValueOf(vo).Elem().Interface())
+			vs := reflect.ValueOf(fam.newS()).Elem()
+			vs.Set(reflect.MakeSlice(vs.Type(), 2, 2))
+			fillWideValue(vs.Index(0), c.Seed+11)
+			fillWideValue(vs.Index(1), c.Seed+12)
+			bs, _ := io.Formatter{Simple: c.Simple}.Marshal(vs.Interface())
+			round := []string{hex.EncodeToString(bt), hex.EncodeToString(bo), hex.EncodeToString(bs)}
+			for _, d := range []struct {
+				dest interface{}
+				data []byte
+			}{{fam.newT(), bt}, {fam.newPT(), bt}, {fam.newO(), bo}, {fam.newS(), bs}} {
+				o, e := decodeInto(c.Simple, d.data, d.dest)
+				round = append(round, o+"|"+e)
+			}
+			round = append(round, errText(e1)+"|"+errText(e2))
+			obs.Rounds = append(obs.Rounds, round)
+			continue
+		}
+		dt, _ := hex.DecodeString(c.Datas[idx][0])
+		do, _ := hex.DecodeString(c.Datas[idx][1])
+		ds, _ := hex.DecodeString(c.Datas[idx][2])
+		n := len(c.DelaysUs)
+		round := make([]string, n+1)
+		dests := make([]interface{}, n+1)
+		dests[0] = fam.newT()
+		for k := 0; k < n; k++ {
+			switch k % 3 {
+			case 0:
+				dests[k+1] = fam.newPT()
+			case 1:
+				dests[k+1] = fam.newO()
+			default:
+				dests[k+1] = fam.newS()
+			}
+		}
+		start := make(chan struct{})
+		var t0 time.Time
+		var ready, done sync.WaitGroup
+		for g := 0; g <= n; g++ {
+			ready.Add(1)
+			done.Add(1)
+			go func(g int) {
+				defer done.Done()
+				ready.Done()
+				<-start
+				tag, data := "T", dt
+				if g > 0 {
+					for time.Since(t0) < time.Duration(c.DelaysUs[g-1])*time.Microsecond {
+					}
+					switch (g - 1) % 3 {
+					case 0:
+						tag = "PT"
+					case 1:
+						tag, data = "O", do
+					default:
+						tag, data = "S", ds
+					}
+				}
+				o, e := decodeInto(c.Simple, data, dests[g])
+				round[g] = tag + ":" + o + "|" + e
+			}(g)
+		}
+		ready.Wait()
+		t0 = time.Now()
+		close(start)
+		done.Wait()
+		obs.Rounds = append(obs.Rounds, round)
+	}
+}
+
 // set by hook_verif.go when built with the tag c14hook
 var runForced func(c *c14Case, obs *c14Obs)
+var runForcedDec func(c *c14Case, obs *c14Obs)
 
 func c14Run(line []byte, out *json.Encoder) error {
 	var c c14Case
@@ -959,6 +1086,14 @@ func c14Run(line []byte, out *json.Encoder) error {
 			obs.Note = "no-hook"
 		} else {
 			runForced(&c, &obs)
+		}
+	case "decrace":
+		runDecRace(&c, &obs)
+	case "forceddec":
+		if runForcedDec == nil {
+			obs.Note = "no-hook"
+		} else {
+			runForcedDec(&c, &obs)
 		}
 	default:
 		return fmt.Errorf("c14: unknown kind %q", c.Kind)
